@@ -36,6 +36,17 @@ static Plan gen_typed(uint64_t seed, int tier, char const* prof)
     {
       ops.push_back(Op{OP_PREALLOC});
     }
+    if (c11 && r.chance(1, 3))
+    {
+      // "a statement whose encoded size fits in the thread's current queue buffer": one that fills the drained buffer exactly
+      // (or almost) must not make the queue grow. Site 0 encodes to 44 + payload bytes; the queue still has its initial capacity.
+      int lg0 = static_cast<int>(r.below(static_cast<uint32_t>(nloggers)));
+      ops.push_back(Op{OP_LOG, lg0, 0, 4, static_cast<int64_t>(r.next() >> 8), 5, 0});
+      ops.push_back(Op{OP_FLUSH, lg0, 100});
+      int64_t const cap0 = static_cast<int64_t>(fo_info(fo).init_cap);
+      ops.push_back(Op{OP_LOG, lg0, 0, 4, static_cast<int64_t>(r.next() >> 8), cap0 - 44 - r.pick<int64_t>({0, 0, 0, 1, 8, cap0 / 20}), 0});
+      ops.push_back(Op{OP_FLUSH, lg0, 100});
+    }
     int n = static_cast<int>(r.range(3, tier ? 60 : 40));
     for (int i = 0; i < n; ++i)
     {
@@ -166,11 +177,26 @@ Verdict judge_c11(Plan const& p, History const& h, RunInfoLite const& ri)
   }
   std::set<int> backend(h.backend_ids.begin(), h.backend_ids.end());
   uint64_t measured = 0, excused_first = 0, excused_growth = 0, excluded_types = 0, deferred_on_backend = 0, direct_on_caller = 0;
+  // per thread: drained = flush_log() returned and the thread has not logged since (its queue is empty and, the reader
+  // position being published when a pass drains a queue, all of its capacity is free)
+  std::map<int, bool> drained;
+  std::map<int64_t, bool> drained_at_invoke;
+  uint64_t exact_fit = 0;
   for (auto const& e : h.ev)
   {
+    if (e.type == EV_FLUSH_RETURN)
+    {
+      drained[e.thread] = true;
+    }
+    else if (e.type == EV_LOG_INVOKE)
+    {
+      drained_at_invoke[e.a] = drained[e.thread];
+      drained[e.thread] = false;
+    }
     if (e.type == EV_ALLOC)
     {
       bool first = e.d & 1, grew = e.d & 2, c11ok = e.d & 4;
+      int64_t const cap_before = e.d >> 8;
       if (!c11ok)
       {
         ++excluded_types;
@@ -183,8 +209,27 @@ Verdict judge_c11(Plan const& p, History const& h, RunInfoLite const& ri)
       }
       if (grew)
       {
+        // growth is excused unless the statement certainly fitted: a generic statement of known encoded size, not larger
+        // than the capacity, issued on a drained queue
+        auto it = m.issued.find(e.a);
+        size_t const enc = (it != m.issued.end() && it->second.kind == 0) ? encoded_size_of(p, e.a) : 0;
+        if (enc != 0 && drained_at_invoke[e.a] && static_cast<int64_t>(enc) <= cap_before)
+        {
+          return violation("queue_grew_for_a_statement_that_fitted",
+                           "id " + std::to_string(e.a) + ": encoded size " + std::to_string(enc) + " on a drained queue of capacity " +
+                             std::to_string(cap_before) + ", yet the capacity changed (" + std::to_string(e.b) + " heap, " +
+                             std::to_string(e.c) + " mmap allocations on the calling thread)");
+        }
         ++excused_growth;
         continue;
+      }
+      if (drained_at_invoke[e.a] && cap_before > 0)
+      {
+        auto it = m.issued.find(e.a);
+        if (it != m.issued.end() && it->second.kind == 0 && static_cast<int64_t>(encoded_size_of(p, e.a)) * 100 >= cap_before * 94)
+        {
+          ++exact_fit;
+        }
       }
       ++measured;
       if (e.b != 0 || e.c != 0)
@@ -223,6 +268,7 @@ Verdict judge_c11(Plan const& p, History const& h, RunInfoLite const& ri)
   v.probes["steady_state_calls_measured"] = measured;
   v.probes["excused_first_call_of_thread"] = excused_first;
   v.probes["excused_queue_capacity_changed"] = excused_growth;
+  v.probes["statements_filling_a_drained_queue_to_94_100_percent"] = exact_fit;
   v.probes["excluded_by_documented_design"] = excluded_types;
   v.probes["deferred_formatters_seen_on_backend"] = deferred_on_backend;
   v.probes["direct_formatters_seen_on_caller"] = direct_on_caller;
